@@ -5,6 +5,7 @@ import (
 	"filippo.io/age/armor"
 	"fmt"
 	"io"
+	"strings"
 
 	"filippo.io/age"
 
@@ -537,14 +538,21 @@ func (e C12) execDearmor(p *C12Plan, c *core.Ctx) *core.Verdict {
 		text = "\n"
 	}
 	canonRes := dearmorOutcome([]byte(text), seam.Delivery{Mode: "whole"}, lib.ReadSched{Mode: "all"}, nil)
+	longest := 0
+	for _, l := range strings.Split(text, "\n") {
+		if len(l) > longest {
+			longest = len(l)
+		}
+	}
 	for _, sp := range p.Pairs {
 		src := seam.NewSource([]byte(text), sp.Delivery, nil, nil)
 		res := &lib.DecResult{}
 		var viol *core.Verdict
 		rd := newArmorReader(src)
 		lib.Drain(rd, sp.Reads, res, func(released int) {
-			// armor: at most one bufio page + one line beyond what was released
-			b := 35 + (released/48+2)*66 + 4096 + sp.Delivery.Bufio + 1100
+			// armor: at most one bufio page + one line beyond what was released (a line of the damaged text can be far
+			// longer than 64 columns, and a reader has to see a line to its end to judge it)
+			b := 35 + (released/48+2)*66 + 4096 + sp.Delivery.Bufio + 1100 + longest
 			if src.Consumed > b && viol == nil {
 				viol = core.Fail("C12.dearmor.readahead", "with %d bytes released the armor reader consumed %d text bytes (bound %d)", released, src.Consumed, b)
 			}
